@@ -13,9 +13,10 @@ from .retrycheck import export_behaviours, replay_behaviours
 from .tlc import pick_cfg, run_tlc
 from .tracecheck import tlc_validate
 
-VARIANTS = [{"entry": "Policy", "permute": False, "flavours": "nocircuit"},
+VARIANTS = [{"entry": "Policy", "permute": False, "flavours": "nocircuit", "sugar_retry": True},
             {"entry": "AsyncPolicy", "permute": True, "flavours": "nocircuit"},
-            {"entry": "AsyncPolicy", "permute": False, "place": "ctor", "async_callbacks": True}]
+            {"entry": "AsyncPolicy", "permute": False, "place": "ctor", "async_callbacks": True,
+             "sugar_retry": True}]
 
 
 def judge(rep: Report, prop: str, traces, verdicts, origin: str) -> int:
